@@ -11,7 +11,7 @@ use crate::{Ctx, Tier};
 use h263_rs::parser::H263Reader;
 
 pub fn rule() -> String {
-    "cases = sequences of 2-8 complete valid pictures (I / P / disposable P, Sorenson and standard mode, same-size and size-changing at I pictures), each padded with 0..7 zero bits to a byte boundary and concatenated in one source: call i on the shared reader must give the outcome and picture of decoding picture i in its own reader on a twin decoder, and after call i the reader must stand between the end of picture i's macroblock data and the end of its padding; stuffing and PEI bytes vary the end-of-data bit phase over 0..7; distinct by hash of the concatenated bytes; non-trivial = at least two pictures decoded from the shared reader".into()
+    "cases = sequences of 2-8 valid pictures (I / P / disposable P / early-ending P / P without restated format, Sorenson and standard mode, same-size and size-changing at I pictures), each padded with 0..7 zero bits to a byte boundary and concatenated in one source: call i on the shared reader must give the outcome and picture of decoding picture i in its own reader on a twin decoder, and after call i the reader must stand between the end of picture i's macroblock data and the end of its padding; stuffing and PEI bytes vary the end-of-data bit phase over 0..7; distinct by hash of the concatenated bytes; non-trivial = at least two pictures decoded from the shared reader".into()
 }
 
 pub fn case(ctx: &Ctx, shard: usize, index: u64, rep: &mut Report) {
@@ -45,8 +45,18 @@ pub fn case(ctx: &Ctx, shard: usize, index: u64, rep: &mut Report) {
         cfg.tr = tr;
         let (sym, kind) = if have_ref && rng.chance(2, 3) {
             let disp = sorenson && rng.chance(1, 4);
-            let ic = InterCfg { ptype: if disp { 2 } else { 0 }, big_vectors_pct: 30, residual_pct: 50, truncate: None, allow_q: true };
-            (gen_inter(&mut rng, &cfg, &ic), if disp { 'D' } else { 'P' })
+            // some predicted pictures end early (the remaining macroblocks repeat the reference): in its own
+            // reader such a picture ends with the data, in the shared reader with the next start code
+            let nmb = ((w + 15) / 16) * ((h + 15) / 16);
+            // (standard mode only: a Sorenson decoder deliberately does not resynchronise to start codes, so an
+            // early-ending Sorenson picture is only decodable as the last thing in its source)
+            let early = !long && !sorenson && rng.chance(1, 4);
+            let truncate = if early { Some(rng.below(nmb as u64) as usize) } else { None };
+            let ic = InterCfg { ptype: if disp { 2 } else { 0 }, big_vectors_pct: 30, residual_pct: 50, truncate, allow_q: true };
+            let mut sym = gen_inter(&mut rng, &cfg, &ic);
+            // ... and some standard-mode ones do not restate the picture format
+            let formatless = rng.chance(1, 3) && drop_format(&mut sym);
+            (sym, if early { 'T' } else if formatless { 'U' } else if disp { 'D' } else { 'P' })
         } else {
             if have_ref && !long && rng.chance(1, 3) {
                 // size change is legal at an I picture
@@ -112,6 +122,12 @@ pub fn case(ctx: &Ctx, shard: usize, index: u64, rep: &mut Report) {
         rep.count(&format!("kind={}", kind));
         if i > 0 {
             rep.count(&format!("bigram:{}{}", pics[i - 1].2, kind));
+        }
+        if i > 0 && pics[i - 1].2 == 'T' {
+            rep.count(if sorenson { "early_end_then_next_picture:sorenson" } else { "early_end_then_next_picture:standard" });
+            if pics[i - 1].1 % 8 == 0 {
+                rep.count(if sorenson { "early_end_phase0_then_next_picture:sorenson" } else { "early_end_phase0_then_next_picture:standard" });
+            }
         }
         rep.count("calls_compared");
         start += bytes.len() * 8;
@@ -245,7 +261,7 @@ pub fn run(ctx: &Ctx) -> (Report, String) {
     if ctx.is_main() {
         let m = ctx.scale_pct;
         rep.require("sequences_completed", if ctx.tier == Tier::Thorough { 2_000_000 } else { 150_000 } * m / 100);
-        for k in ["mode=sorenson", "mode=standard", "end_phase=0", "end_phase=1", "end_phase=2", "end_phase=3", "end_phase=4", "end_phase=5", "end_phase=6", "end_phase=7", "kind=I", "kind=P", "kind=D", "bigram:II", "bigram:IP", "bigram:PI", "bigram:PP", "bigram:DP", "bigram:PD"] {
+        for k in ["mode=sorenson", "mode=standard", "end_phase=0", "end_phase=1", "end_phase=2", "end_phase=3", "end_phase=4", "end_phase=5", "end_phase=6", "end_phase=7", "kind=I", "kind=P", "kind=D", "bigram:II", "bigram:IP", "bigram:PI", "bigram:PP", "bigram:DP", "bigram:PD", "kind=T", "kind=U", "bigram:TP", "bigram:TI", "bigram:UU", "early_end_then_next_picture:standard", "early_end_phase0_then_next_picture:standard"] {
             rep.require(k, 100 * m / 100);
         }
     }
